@@ -18,7 +18,8 @@ from vlib.env import Env, REPO, VERIF, strip_ansi
 
 LEXDRV = os.path.join(VERIF, "harness", "overlay", "lexdrv", "main.go")
 CH = {"a": b"a", "1": b"1", " ": b" ", "nl": b"\n", "\"": b"\"", "'": b"'", "/": b"/", "*": b"*", "{": b"{", "@": b"@",
-      "hi": b"\xc3\x28", "-": b"-", ".": b".", "0x": b"0x"}
+      "hi": b"\xc3\x28", "-": b"-", ".": b".", "0x": b"0x", "bs": b"\\", "tab": b"\t", "cr": b"\r"}
+INS = {"bs": b"\\", "bsnl": b"\"\\\n"}          # inserted tokens that are not their own spelling
 FRAME = re.compile(r"((?:/[\w.\-]+)+/internal/[\w/.\-]+\.go|main\.go):(\d+)")
 KEEP = {"Start", "PhaseBegin", "Diag", "ErrorGate", "Artifact", "Result"}
 
@@ -56,7 +57,7 @@ def mutate(text, toks, c):
     if c["op"] == "truncate":
         return data[:s]
     if c["op"] == "insert":
-        return data[:s] + c["t"].encode() + b" " + data[s:]
+        return data[:s] + INS.get(c["t"], c["t"].encode()) + b" " + data[s:]
     return None
 
 
